@@ -158,6 +158,14 @@ let () =
     let all = Stdlib.List.fold_left (fun a s -> BinNat.N.coq_lor a s.icards) ist.iboard ist.iseats in
     let cnt = Stdlib.List.fold_left (fun a s -> a + popcount s.icards) (popcount ist.iboard) ist.iseats in
     spec "c14_cards_pairwise_disjoint" (popcount all = cnt) o.(0);
+    (* a deal containing a card already in play must be refused *)
+    Stdlib.List.iter (fun pv ->
+      match split '=' pv with
+      | [m; v] ->
+        let mm = n_of_string m in
+        if not (BinNat.N.eqb (BinNat.N.coq_land mm all) BinNums.N0) then
+          spec "c14_deal_of_card_in_play_refused" (v <> "1") ("the engine accepts the deal " ^ m ^ " although it holds a card in play")
+      | _ -> ()) (split ',' o.(8));
     if o.(9) <> "P" then begin
       let dk = n_of_string o.(9) in
       spec "c14_deck_offers_no_card_in_play" (BinNat.N.eqb (BinNat.N.coq_land dk all) BinNums.N0) o.(9);
